@@ -10,7 +10,7 @@ import (
 
 func zzC12(n int) {
 	zzvBound("inputs", "n trackable float64 values of any sign / zero / sub-minimum magnitude added with unit weight into a sketch on real sparse stores; mapping through the C03 contract; q1 <= q2 over all bit patterns in [0,1]")
-	zzvMapOrderFixed(true)
+	zzvMapOrders(2)
 	zzvExactFloatsOnly()
 	m := zzContract()
 	s := NewDDSketch(m, store.NewSparseStore(), store.NewSparseStore())
@@ -113,7 +113,7 @@ var zzWeightGrid = []float64{0.0009765625, 0.25, 0.5, 1, 1.5, 3, 1048576}
 
 func zzC11(n int, viaReweight bool) {
 	zzvBound("weighted inputs", "n trackable values with weights from {2^-10, 1/4, 1/2, 1, 1.5, 3, 2^20} (so totals below one occur), reached by weighted adds or by unit adds followed by Reweight; every q in [0,1]; real sparse stores; mapping through the C03 contract")
-	zzvMapOrderFixed(true)
+	zzvMapOrders(2)
 	zzvExactFloatsOnly()
 	m := zzContract()
 	s := NewDDSketch(m, store.NewSparseStore(), store.NewSparseStore())
